@@ -235,7 +235,7 @@ def gen_build_case(r):
         dn = f"{dp.replace('.', '/')}/{r.choice(FNAMES)}.proto"
         if dn not in used:
             used.add(dn)
-            deps.append({"name": dn, "package": dp, "services": ["DepSvc"] if r.random() < 0.3 else []})
+            deps.append({"name": dn, "package": dp, "services": [f"DepSvc{j}"] if r.random() < 0.3 else []})
     allf = deps + files
     if r.random() < 0.3:
         r.shuffle(allf)
@@ -329,7 +329,7 @@ def gen_request(r, defect=None):
     svcs = r.sample(SVC_POOL, r.randint(0, 3))
     files, mi = [], 0
     sub = r.choice(["sub", "types_ext", "admin"]) if (ver and r.random() < 0.3) or defect in ("nested", "subsvc") else None
-    if defect == "subsvc":
+    if defect in ("subsvc", "nested"):
         ver = ver or "v1"
         pkg = ".".join(ns + [name, ver])
         d = pkg.replace(".", "/")
@@ -451,7 +451,7 @@ def reference(case):
             break
     unv_disabled = bool(case.get("yaml"))
     return {"package": package, "root": root, "alias": "/".join(ns + [name]), "types": types, "services": services,
-            "versioned": bool(version), "metadata": any(opt_key(p) == "metadata" for p in case["params"]),
+            "versioned": bool(version), "multi_package": len(pkgs) > 1, "metadata": any(opt_key(p) == "metadata" for p in case["params"]),
             "transports": transports.split("+"), "unversioned_disabled": unv_disabled,
             "dep_only": [fp.name for fp in req.proto_file if fp.name not in req.file_to_generate]}
 
@@ -503,9 +503,8 @@ def oracle(ctx, case, res, ref):
     got_types = {n for n in names if re.fullmatch(re.escape(root) + r"/(?:[^/]+/)*types/[^/]+\.py", n) and not n.endswith("/__init__.py")}
     if got_types != ref["types"]:
         extra, missing = sorted(got_types - ref["types"]), sorted(ref["types"] - got_types)
-        dep_mods = [d.split("/")[-1][:-6].lower().replace("-", "_").replace(".", "_") for d in ref["dep_only"]]
         sig = None
-        if extra and not missing and all(any(m in e.split("/")[-1] for m in dep_mods) for e in extra) and prefix_dep(case, ref):
+        if extra and not missing and prefix_dep(case, ref):
             sig = "files.dependency_package_string_prefix"
         if missing and not extra and all(m.count("/") > root.count("/") + 3 for m in missing):
             sig = "files.nested_subpackage"
@@ -589,6 +588,9 @@ def run_e2e(ctx, cases, tag="c11e2e"):
                 ctx.violation("generation fails (ValueError: All protos must have the same proto package) because a dependency-only file whose "
                               "package merely has the target package as a string prefix is taken for a target", case,
                               "files.dependency_package_string_prefix")
+            elif enum == "EUnversionedMulti" and not ref["versioned"] and ref["multi_package"]:
+                # documented refusal: target files in several packages need a version segment to share
+                ctx.features["e2e refused: unversioned sub-packages"] += 1
             else:
                 ctx.violation(f"generation failed: {gen.error_kind(err)}: {err.strip().splitlines()[-1][:200] if err.strip() else ''}", case)
             if enum:
